@@ -528,8 +528,9 @@ func genAttestHistory(run *emit.Run, nv int) []xhop {
 					base = "tx:5:1"
 				}
 			}
+			few := r.Intn(5) == 0 // only one or two validators attest: no consensus, pruning jails the others
 			for v := 0; v < nv; v++ {
-				if r.Intn(6) == 0 {
+				if r.Intn(6) == 0 || (few && v >= 1+r.Intn(2)) {
 					continue
 				}
 				p := base
